@@ -231,7 +231,7 @@ void run_pool(const Case &c) {
     }
     vsched::end();
     if (vsched::spurious_wakeups()) label("spurious_wakeup");
-    { std::string w = "W"; for (uint8_t x : vsched::widths()) w += (char)('0' + (x > 9 ? 9 : x)); aux(w); }
+    { std::string w = "W"; for (uint8_t x : vsched::widths()) { if (w.size() > 4000) break; w += (char)('0' + (x > 9 ? 9 : x)); } aux(w); }
     int ran = 0; for (auto &t : tasks) ran += t.runs;
     label_n("tasks", (long)tasks.size()); label_n("tasks_ran", ran); label_n("switches", (long)vsched::switches());
     if (switch_in_run) label("switch_during_task");
@@ -351,7 +351,7 @@ void run_thread(const Case &c) {
     }
     vsched::end();
     if (vsched::spurious_wakeups()) label("spurious_wakeup");
-    { std::string w = "W"; for (uint8_t x : vsched::widths()) w += (char)('0' + (x > 9 ? 9 : x)); aux(w); }
+    { std::string w = "W"; for (uint8_t x : vsched::widths()) { if (w.size() > 4000) break; w += (char)('0' + (x > 9 ? 9 : x)); } aux(w); }
     if (child_began_after_return) { label("child_ran_after_start_returned"); nontrivial(); }
 }
 
